@@ -73,6 +73,7 @@ func newIRFix() *irFix {
 func (f *irFix) server() any       { return f.srv }
 func (f *irFix) observe() string   { return fmt.Sprint(f.log.n()) }
 func (f *irFix) effects() *callLog { return &f.log }
+func (f *irFix) invalidate()       {}
 
 // allowed: the configured keys plus the server's own key (documented by irsrv.New).
 func (f *irFix) allowed() [][]byte {
